@@ -342,8 +342,8 @@ theorem govRemoveAdministrator_post {s s' : State} {au : Addr} {d : Denom} {a : 
   have hm' := (govMarker_ok hm).1
   exact Post.of_set_same (m' := m.revokeAccess a) hm' (show m.denom = d from find_denom hm') rfl rfl rfl
 
-theorem updateParams_post {s s' : State} {au : Addr} {mx : Int} {eg : Bool} (d : Denom)
-    (h : updateParams s au mx eg = .ok s') : Post s s' d := by
+theorem updateParams_post {s s' : State} {au : Addr} {mx mts : Int} {eg : Bool} (d : Denom)
+    (h : updateParams s au mx mts eg = .ok s') : Post s s' d := by
   simp only [updateParams, bind_ok, check_ok, pure_ok] at h
   obtain ⟨_, _, rfl⟩ := h
   exact ⟨fun _ _ => rfl, fun _ _ => rfl, id, id, fun m hm => ⟨m, hm, status_le_refl _⟩, id,
